@@ -133,7 +133,7 @@ func init() {
 				"randomInt and keys() are excluded from generated bundles",
 			},
 			Components: map[string][]string{"real": {"all of robfig/soy: unmodified build and instrumented build of the current working tree"}, "stub": {"io.Writer (fault-injecting)", "soymsg.Bundle (built from the compiled messages)", "vfail function / directive (panics on schedule)"}, "replaced": {}},
-			RequireProbes: []string{"renders_compared_with_output", "completed_js", "completed_genfile", "completed_recompile", "completed_evalexpr", "histories_compared_with_a_fresh_process", "op_render-tofu", "op_render-nils", "op_render-tofu-nils", "op_render", "op_render-reused", "op_render-writerfault", "op_render-panic", "op_render-illtyped", "op_js", "op_genfile", "op_recompile", "fault_fired_writer", "fault_fired_panic_error", "fault_fired_panic_runtime-error",
+			RequireProbes: []string{"renders_compared_with_output", "completed_js", "completed_genfile", "completed_recompile", "completed_evalexpr", "histories_compared_with_a_fresh_process", "op_render-tofu", "op_render-struct", "op_edit-struct", "op_render-nils", "op_render-tofu-nils", "op_render", "op_render-reused", "op_render-writerfault", "op_render-panic", "op_render-illtyped", "op_js", "op_genfile", "op_recompile", "fault_fired_writer", "fault_fired_panic_error", "fault_fired_panic_runtime-error",
 				"histories_with_obligatory_directives", "failed_renders"},
 		}
 	})
